@@ -42,6 +42,16 @@ route("TRIAD(v1,v2,quaternion).A", UP, "c0s", "A", "closed", 1e-7)(lambda a, m, 
 route("TRIAD.estimate(quaternion)", UP, "c0s", "A", "closed", 1e-7)(lambda a, m, d: F.TRIAD(v1=np.array([0.0, 0, 1]), v2=np.array(href("c0s", d), dtype=float)).estimate(a, m, representation="quaternion"))
 # (TRIAD's "v2 as a dip angle" is unreachable: the guard clause refuses a float before it is interpreted)
 route("TRIAD(frame=ENU,v2).A", DN, "0c-s", "A", "free")(lambda a, m, d: F.TRIAD(a, m, v2=np.array(href("0c-s", d), dtype=float), frame="ENU").A)
+def _triad_reconfigured(a, m, d, rep="rotmat"):
+    # one object used twice: first with other references, then its public reference attributes are re-assigned
+    t = F.TRIAD(v1=np.array([0.0, 0.0, -1.0]), v2=unitv([0.0, 3.0, -4.0]))
+    t.estimate(np.array([0.3, -0.2, 9.7]), np.array([12.0, 30.0, -41.0]))
+    t.v1 = np.array([0.0, 0.0, 1.0])
+    t.v2 = unitv(href("c0s", d))
+    return t.estimate(a, m, representation=rep)
+
+
+route("TRIAD.estimate[after v1,v2 re-assigned]", UP, "c0s", "A", "free")(lambda a, m, d: _triad_reconfigured(a, m, d))
 # ---- Davenport / QUEST
 route("Davenport().Q", UP, "c0s", "B", "free", 1e-7)(lambda a, m, d: F.Davenport(a, m, magnetic_dip=dipdeg(d)).Q)
 route("Davenport.estimate", UP, "c0s", "B", "free", 1e-7)(lambda a, m, d: F.Davenport(magnetic_dip=dipdeg(d)).estimate(a, m))
@@ -50,6 +60,7 @@ route("QUEST.estimate", UP, "c0s", "B", "closed", 1e-7)(lambda a, m, d: F.QUEST(
 # ---- FLAE, three modes
 for _m, _cls in (("eig", "free"), ("symbolic", "closed"), ("newton", "closed")):
     route("FLAE(method=%s).Q" % _m, UP, "c0-s", "B", _cls, 1e-7)(lambda a, m, d, _m=_m: F.FLAE(np.array([a, a]), np.array([m, m]), method=_m, magnetic_dip=dipdeg(d)).Q[1])
+    route("FLAE(1-D sample, method=%s).Q" % _m, UP, "c0-s", "B", _cls, 1e-7)(lambda a, m, d, _m=_m: F.FLAE(a, m, method=_m, magnetic_dip=dipdeg(d)).Q)
     route("FLAE.estimate(method=%s)" % _m, UP, "c0-s", "B", _cls, 1e-7)(lambda a, m, d, _m=_m: F.FLAE(magnetic_dip=dipdeg(d)).estimate(a, m, method=_m))
 # ---- OLEQ
 route("OLEQ(NED).Q", DN, "s0c", "B", "closed", 1e-6)(lambda a, m, d: F.OLEQ(a, m, magnetic_ref=float(dipdeg(d)), frame="NED").Q)
